@@ -201,6 +201,9 @@ def replay_classdef(args):
     return [ev]
 
 
+RESERVED_ALL = ("ports", "signals", "roles", "props")
+
+
 def features(target, hist):
     """Declarative features of a history (used only to attribute failures to listed findings)."""
     f = {f"target_{target}"}
@@ -302,6 +305,14 @@ def run(tier, seed, replay_file=None):
                     t, hs = hists[i]
                     case = {"target": t, "hist": hs}
                     feats = features(t, hs)
+                    # is the step that fails itself an add() under a reserved name?  (the listed finding covers exactly that, not whatever
+                    # else goes wrong in a history that happens to contain such a step)
+                    try:
+                        k = int(clause.split("@")[1]) - 1
+                        if hs[k]["op"] == "add" and hs[k]["mode"] == "kw" and hs[k]["name"] in RESERVED_ALL:
+                            feats = feats + ["failing_step_is_add_under_reserved_name"]
+                    except Exception:
+                        pass
                 else:
                     t, b = cd[i - base]
                     case = {"target": t, "classdef": b, "hist": [{"op": "setattr", "name": x[0], "kind": x[1], "mode": ""} for x in b]}
